@@ -41,6 +41,15 @@ def scenarios(ctx):
         if not quick:
             out.append((f"group-two-app-{mname}", scen_group.make, gc.two_members(baseline="app", **extra), K))
     out.append(("group-manual-assign", scen_group.make, gc.two_members(members=[dict(assign=[("t", 0), ("t", 1)])], **tail), K))
+    # applications blocked in getone() (iteration) on an empty buffer with a fetch long-poll in flight when stop() is issued
+    out.append(("groupless-getone", scen_group.make, gc.two_members(members=[dict(group=False, assign=[("t", 0), ("t", 1)], poll="getone")],
+                                                                   feed=[0.7, 2], fault_apis=["Fetch", "ListOffsets", "Metadata"], **tail), K))
+    out.append(("group-two-getone", scen_group.make, gc.two_members(members=[dict(topics=["t"], assignors=["range"], poll="getone"),
+                                                                             dict(topics=["t"], assignors=["range"], start=1.0, poll="getone")],
+                                                                    feed=[0.7, 2], **tail), K))
+    # the final commit of stop() answered REBALANCE_IN_PROGRESS (one error reply placed anywhere, then stop placed anywhere)
+    out.append(("group-two-commit-rebalance-in-progress", scen_group.make,
+                gc.two_members(**dict(tail, errs={"OffsetCommit": [27]}, fault_apis=["OffsetCommit"], faults=["err"])), [{"k": 1, "f": 1}]))
     if not quick:
         out.append(("group-two-faults", scen_group.make, gc.two_members(**dict(tail, errs=gc.errs())), KT))
     base_f = {"faults": ["drop-before", "drop-after", "lose", "err"], "errs": {"Produce": [6, 7]}, "fault_apis": ["Produce", "Metadata"],
@@ -48,12 +57,12 @@ def scenarios(ctx):
     prog = [[(0, T), (0, T + 1)], [(0, T + 2), (1, T + 3)]]
     for mname, m in (("idem", {"idempotent": True}), ("acks1", {"acks": 1}), ("acks0", {"acks": 0})):
         for bname, b in (("single", {"batching": "single"}), ("multi", {"batching": "multi"})):
-            for cname, mode in (("healthy", None), ("leader-down", ["down", 0]), ("other-down", ["down", 1]), ("blackhole", ["blackhole"])):
-                if quick and bname == "multi" and cname != "healthy":
+            for cname, mode in (("healthy", None), ("all-down", ["down", "all"]), ("other-down", ["down", 1]), ("blackhole", ["blackhole"])):
+                if quick and cname != "healthy" and (bname == "multi" or mname == "acks0" or cname == "other-down"):
                     continue
                 p = dict(base_f, **m, **b, baseline="app", program=prog)
                 if mode:
-                    p["mode_now"] = mode
+                    p["mode_after"] = [2, mode]  # in force once the first two records are accepted (metadata known, batches pending)
                 out.append((f"producer-{mname}-{bname}-{cname}", scen_producer.make, p, K if quick else KT))
     return out
 
